@@ -43,6 +43,10 @@ RULE = ("case = a real fit() run (state kind, n, h[, a], data with repeats and p
         "start / while the batch is processed / batch end / epoch end of a chosen epoch; the first j = 1..15 documented parameters given positionally; "
         "integer options (epochs, pos/neg batch size, k, starting_epoch, state sizes) as Python / numpy / 0-d array / 0-d tensor integers and progbar / "
         "time / gpu as bool / int / numpy.bool_ / 0-d array / 0-d tensor objects (stream `aseed` of the case); "
+        "final pass: calls that leave k / lr to their documented defaults (k = 1, lr = 1e-3, DensityMatrix 1); keywords naming no parameter and "
+        "input_bases= on a positive state; optimizers WITH STATE (SGD momentum / weight decay / nesterov, Adam, AdamW, RMSprop, Adagrad) on data whose "
+        "batches have an exactly zero phase / whole gradient (all-Z bases, Z rows then rotated rows, identical rows with k = 0), judged by replay with "
+        "torch's own optimizer; "
         "bernoulli draws scripted (faithful u<p or fair coins) and recorded) observed through compute_batch_gradients and rbm_am.gibbs_steps wrapped on the "
         "instance; every batch of every epoch is one observation: negative batch, chain start, probabilities presented, chain end states, .grad per "
         "parameter, lr, parameters before/after; per call: events, scheduler step count and learning rate left in the optimizer; non-trivial iff the run "
@@ -88,6 +92,8 @@ DOC_ORDER = {
     True: ["data", "epochs", "pos_batch_size", "neg_batch_size", "k", "lr", "input_bases", "progbar", "starting_epoch", "time", "callbacks",
            "optimizer", "optimizer_args", "scheduler", "scheduler_args"],
 }
+DOC_DEFAULT_K = 1                                        # documented default of k (all three fit methods)
+DOC_DEFAULT_LR = {"pos": 1e-3, "cplx": 1e-3, "dm": 1}    # documented default of lr (DensityMatrix.fit: the int 1)
 DOC_DEFAULT = {"progbar": False, "time": False, "optimizer_args": None, "scheduler_args": None, "scheduler": None, "callbacks": None, "starting_epoch": 1}
 REFS = {"data": 10, "lr": 11, "input_bases": 12, "callbacks": 13, "optimizer": 14, "optimizer_args": 15, "scheduler": 16, "scheduler_args": 17}
 
@@ -200,9 +206,10 @@ def expected_lr(lr0, sched, e):
 # ------------------------------------------------------------------ one case
 def parse_events(ev, start):
     """events of ONE fit call -> (well_formed, [number of batches of every entered epoch]).
-    Well formed: consecutive epochs start, start+1, ...; every epoch is  es (bs opt be)* sched ee ; nothing outside an epoch:
+    Well formed: consecutive epochs start, start+1, ...; every epoch is  es (bs opt be)* {sched ee | ee sched} ; nothing else:
     the optimizer is stepped exactly once per batch (between on_batch_start and on_batch_end), the scheduler exactly once per ENTERED
-    epoch, after the epoch's last batch and before on_epoch_end - also in an epoch that a stop request cut short."""
+    epoch, after the epoch's last batch and before the next epoch starts - also in an epoch that a stop request cut short. On which side
+    of on_epoch_end the step is made is not constrained by the property ("advanced exactly once per epoch")."""
     pos, e, counts = 0, start, []
     while pos < len(ev):
         if ev[pos] != f"es{e}":
@@ -212,7 +219,7 @@ def parse_events(ev, start):
         while ev[pos:pos + 3] == ["bs", "opt", "be"]:
             pos += 3
             m += 1
-        if ev[pos:pos + 2] != ["sched", f"ee{e}"]:
+        if ev[pos:pos + 2] not in (["sched", f"ee{e}"], [f"ee{e}", "sched"]):
             counts.append(m)
             return False, counts
         pos += 2
@@ -288,7 +295,10 @@ def one_case(ctx, case):
     def record_step(opt, do_step):
         if not obs["on"]:
             return do_step()
-        grads = [[None if p.grad is None else p.grad.numpy().copy() for p in g["params"]] for g in opt.param_groups]
+        # a parameter whose .grad is None when the optimizer is stepped was handed NO gradient: torch skips it (for plain SGD the same as a zero
+        # gradient; with weight decay / momentum / Adam it is not: judged by effect in the stateful-optimizer regime). Recorded as zeros + a counter
+        missing = sum(1 for g in opt.param_groups for p in g["params"] if p.grad is None)
+        grads = [[np.zeros(tuple(p.shape)) if p.grad is None else p.grad.numpy().copy() for p in g["params"]] for g in opt.param_groups]
         r = do_step()
         log["last_opt"] = opt
         if "k" not in cur:  # optimizer stepped without a compute_batch_gradients call since the last step: nothing to tie the model to
@@ -296,6 +306,7 @@ def one_case(ctx, case):
             return r
         rec = dict(cur)
         rec["grads"] = grads[0]
+        rec["grads_missing"] = missing
         rec["after"] = [net_params(x, kind) for x in nets]
         rec["lr"] = opt.param_groups[0]["lr"]
         rec["momentum"] = opt.param_groups[0].get("momentum")
@@ -308,6 +319,10 @@ def one_case(ctx, case):
     class RecSGD(torch.optim.SGD):
         def step(self, closure=None):
             return record_step(self, lambda: torch.optim.SGD.step(self, closure))
+
+    def rec_class(base):
+        """a recording subclass of ANY torch optimizer class (stateful ones: momentum, weight decay, Adam moments)"""
+        return type("Rec" + base.__name__, (base,), {"step": lambda self, closure=None: record_step(self, lambda: base.step(self, closure))})
 
     class CountSched:
         def __init__(self, optimizer, **kw):
@@ -379,6 +394,11 @@ def one_case(ctx, case):
         named.update(optimizer=RecSGD, optimizer_args={"momentum": 0.0, "dampening": 0.0, "nesterov": False})  # still plain SGD
     elif opt_form == "default-args":  # optimizer omitted (library default), options for it given
         named.update(optimizer_args={"momentum": 0.0, "nesterov": False})
+    optim = case.get("optim")  # {"name": torch.optim class name, "args": its options}: an optimizer WITH STATE / weight decay, judged by effect
+    if optim:
+        named.update(optimizer=rec_class(getattr(torch.optim, optim["name"])), optimizer_args=dict(optim["args"]))
+    omit = set(case.get("omit") or [])       # documented defaults: `k` and / or `lr` NOT written in the call (case["k"], case["lr"] hold the documented values)
+    extra_kw = case.get("extra_kw") or {}    # keywords naming no documented parameter (collected by **kwargs, ignored); "input_bases" for a positive state
     option_objs = {k_: named[k_] for k_ in ("callbacks", "optimizer_args", "scheduler_args") if k_ in named}
     option_snap = {k_: (list(v) if isinstance(v, list) else copy.deepcopy(v)) for k_, v in option_objs.items()}
     runs = [(case["lr"], data)]
@@ -390,6 +410,8 @@ def one_case(ctx, case):
     npos = case.get("npos", 1)
     if opt_form in ("default", "default-args"):
         npos = min(npos, DOC_ORDER[has_bases].index("optimizer"))  # `optimizer=` stays omitted
+    for nm_ in omit:
+        npos = min(npos, DOC_ORDER[has_bases].index(nm_))  # an omitted parameter and everything after it cannot be positional
     run_bounds, run_info = [], []
     forms = af.Forms(None if case.get("aseed") is None else case["aseed"] + 1, ctx)   # stream of the fit calls (the state has its own)
     initial = [net_params(x, kind) for x in nets]
@@ -406,14 +428,19 @@ def one_case(ctx, case):
             nm = dict(named, lr=lr_run, data=torch.tensor(data_run, dtype=torch.double))
             if has_bases:
                 nm["input_bases"] = bases
+            for nm_ in omit:
+                nm.pop(nm_, None)
             # argument forms (round 5): the integer options as the integer objects callers pass, progbar / time given explicitly as truthy /
             # falsy objects (a progress bar goes to stderr, the Timer's line to stdout: neither is constrained); values stay in `nm`
-            objs = {key: forms.i(key, nm[key], allowed) for key, allowed in af.FIT_INT.items()}
+            objs = {key: forms.i(key, nm[key], allowed) for key, allowed in af.FIT_INT.items() if key in nm}
             if forms.rng is not None:
                 for key in ("progbar", "time"):
                     nm[key] = forms.chance(0.2)
                     objs[key] = forms.f(key, nm[key])
             pos_args, kw_args, wire = split_call(has_bases, nm, set(nm), npos, objs)
+            for key, v in extra_kw.items():  # a keyword that names no parameter of this `fit` (swallowed by **kwargs); a positive state ignores input_bases
+                kw_args[key] = np.array([list("X" * n)] * len(data_run)) if key == "input_bases" else v
+                wire["kw"].append([key, {"ref": REFS["input_bases"]} if key == "input_bases" else v])
             try:
                 # a progress bar / the Timer's report (should one appear) must not garble the verdict lines
                 with contextlib.redirect_stderr(io.StringIO()), contextlib.redirect_stdout(io.StringIO()):
@@ -466,7 +493,7 @@ def one_case(ctx, case):
     nontriv = nb >= 2 and case["k"] >= 1
     ctx.count("regime=" + case.get("regime", "ordinary")); ctx.count(f"starting_epoch={start}"); ctx.count(f"fit calls on the object={len(run_bounds)}")
     ctx.case({k: case.get(k) for k in ("kind", "n", "h", "k", "lr", "epochs", "pos_bs", "neg_bs", "seed", "data", "bases", "start", "second_lr", "sched",
-                                       "opt_form", "dmode", "stop", "prior", "npos", "letters", "extra_runs", "aseed")}, nontrivial=nontriv,
+                                       "opt_form", "dmode", "stop", "prior", "npos", "letters", "extra_runs", "aseed", "optim", "omit", "extra_kw")}, nontrivial=nontriv,
              sample={"kind": kind, "n": n, "h": h, "N": N, "pos_bs": case["pos_bs"], "neg_bs": case["neg_bs"], "k": case["k"], "lr": case["lr"],
                      "epochs": case["epochs"], "batches_seen": len(log["batches"]), "sched": sched, "opt_form": opt_form, "stop": stop, "npos": npos})
     ctx.count(f"kind={kind}"); ctx.count(f"k={case['k']}"); ctx.count("neg==pos" if neg_bs == case["pos_bs"] else "neg!=pos")
@@ -476,6 +503,10 @@ def one_case(ctx, case):
     ctx.count("stop request=" + (f"{stop['at']} (with {'StepLR' if sched else 'counting stub'})" if stop else "none"))
     ctx.count("positional arguments (documented order): " + ("data only" if npos == 1 else "through " + DOC_ORDER[has_bases][npos - 1]))
     ctx.count("prior fit of ANOTHER model with the same option objects" if case.get("prior") else "no prior use of the option objects")
+    ctx.count("call leaves to their documented defaults: " + (", ".join(sorted(omit)) if omit else "neither k nor lr"))
+    ctx.count("optimizer: " + (f"{optim['name']}({optim['args']})" if optim else "plain SGD"))
+    if extra_kw:
+        ctx.count("call carries keywords that name no parameter of this fit: " + ", ".join(sorted(extra_kw)))
     if has_bases and case.get("letters"):
         ctx.count("bases use a user-registered letter (unitary_dict=)")
     for k_, v in option_objs.items():  # informational: the property constrains the EFFECT (the learning rate / scheduler of THIS call), not the dict
@@ -511,8 +542,8 @@ def one_case(ctx, case):
     ctx.oracle("one optimizer step per batch (every epoch of an unstopped call has ceil(N/pos_batch_size) of them)",
                ok_steps and len(log["batches"]) == sum(sum(c) for c in entered), case,
                detail={"steps": len(log["batches"]), "batches_per_entered_epoch": entered, "expected_per_epoch": nb}, sig=f"{kind}/steps-per-epoch", theorem=TH["after"])
-    ctx.oracle("scheduler stepped exactly once per ENTERED epoch (also one cut short by a stop request), after the epoch's last batch, before epoch end, "
-               "never outside an epoch; optimizer stepped once per batch", bool(ok_sched), case, detail=sched_detail, sig=f"{kind}/scheduler",
+    ctx.oracle("scheduler stepped exactly once per ENTERED epoch (also one cut short by a stop request), after the epoch's last batch and before the next "
+               "epoch starts; optimizer stepped once per batch", bool(ok_sched), case, detail=sched_detail, sig=f"{kind}/scheduler",
                theorem=TH["sched"] + "; C06_final_lr")
     for r_i, info in enumerate(run_info):  # what the run leaves behind: the rate after exactly one scheduler step per entered epoch
         if info["final_lr"] is None:
@@ -567,7 +598,7 @@ def one_case(ctx, case):
                                           "pos_batch_size": mb["bound"]["pos_batch_size"], "epochs": mb["bound"]["epochs"],
                                           "starting_epoch": mb["bound"]["starting_epoch"], "scheduler": mb["bound"]["scheduler"],
                                           "scheduler_args": mb["bound"]["scheduler_args"], "optimizer_args": mb["bound"]["optimizer_args"]}
-        want = {"k": case["k"], "lr": {"ref": REFS["lr"]}, "neg_batch_size": case["neg_bs"], "pos_batch_size": case["pos_bs"], "epochs": last,
+        want = {"k": case["k"], "lr": {"ref": 0 if "lr" in omit else REFS["lr"]}, "neg_batch_size": case["neg_bs"], "pos_batch_size": case["pos_bs"], "epochs": last,
                 "starting_epoch": start, "scheduler": {"ref": REFS["scheduler"]}, "scheduler_args": {"ref": REFS["scheduler_args"]} if sched else None,
                 "optimizer_args": {"ref": REFS["optimizer_args"]} if "optimizer_args" in named else None}
         ctx.point("model binding of the call (QV.CallForm.fitBind) gives k / lr / scheduler / ... the values the case wrote at the documented positions",
@@ -617,8 +648,11 @@ def one_case(ctx, case):
         before = np.concatenate([flat(p, order) for p in rec["before"]])
         after = np.concatenate([flat(p, order) for p in rec["after"]])
         gflat = np.concatenate([g.ravel() for g in g_all])
-        ctx.oracle("after == before - lr_e*grad (lr_e = lr*gamma^floor(e/step_size) under StepLR)", bool(np.allclose(after, before - lr_want * gflat, rtol=1e-12, atol=1e-14)),
-                   bcase, detail={"lr_in_optimizer": rec["lr"], "lr_expected": lr_want}, sig=f"{kind}/sgd", theorem=TH["after"] + "; " + TH["lr"])
+        if rec.get("grads_missing"):
+            ctx.count("optimizer stepped with .grad = None on some parameter (no gradient handed over: judged by effect)")
+        if not optim:
+            ctx.oracle("after == before - lr_e*grad (lr_e = lr*gamma^floor(e/step_size) under StepLR)", bool(np.allclose(after, before - lr_want * gflat, rtol=1e-12, atol=1e-14)),
+                       bcase, detail={"lr_in_optimizer": rec["lr"], "lr_expected": lr_want}, sig=f"{kind}/sgd", theorem=TH["after"] + "; " + TH["lr"])
         # consistency with the library's own public pieces at the parameters before (NOT independent: localises only)
         ref = make_state({**case, "am": {k2: v.tolist() for k2, v in rec["before"][0].items()},
                           "ph": ({k2: v.tolist() for k2, v in rec["before"][1].items()} if kind != "pos" else None)})
@@ -630,6 +664,7 @@ def one_case(ctx, case):
         want = [pp[0].numpy() - ref.rbm_am.effective_energy_gradient(torch.tensor(vk, dtype=torch.double)).numpy() / rec["neg"].shape[0]]
         if kind != "pos":
             want.append(pp[1].numpy())
+        rec["want_flat"] = np.concatenate(want)
         ok = bool(np.allclose(gflat, np.concatenate(want), rtol=1e-9, atol=1e-11))
         ctx.oracle("grad == public positive_phase_gradients - mean public effective_energy_gradient at the chain ends (per parameter, parameters() order)", ok, bcase,
                    detail={"maxdiff": float(np.max(np.abs(gflat - np.concatenate(want))))}, sig=f"{kind}/cd-oracle", theorem=TH["grad"])
@@ -689,8 +724,9 @@ def one_case(ctx, case):
                 ctx.point(f"grad[net{ni}][param{si}]", "property", impl_g, unbits(sl), bcase, scale=scale, rtol=5e-8, atol=1e-10,
                           sig=f"{kind}/grad", theorem=TH["grad"] + "; " + TH["chain"])
                 pi += 1
-            ctx.point(f"params_after[net{ni}]", "property", flat(rec["after"][ni], order), unbits(m["after"][ni]), bcase, scale=1.0,
-                      rtol=5e-8, atol=1e-10, sig=f"{kind}/after", theorem=TH["after"])
+            if not optim:  # the model's update rule is plain SGD; optimizers with state are judged by the torch-replay oracle below
+                ctx.point(f"params_after[net{ni}]", "property", flat(rec["after"][ni], order), unbits(m["after"][ni]), bcase, scale=1.0,
+                          rtol=5e-8, atol=1e-10, sig=f"{kind}/after", theorem=TH["after"])
 
     if unmodelled and not ctx.__dict__.get("_c06_unmodelled_reported"):
         ctx._c06_unmodelled_reported = True
@@ -700,8 +736,52 @@ def one_case(ctx, case):
         ctx.point("bernoulli draws consumed as the model scripts them (k passes of h[,a],v conditionals on the whole negative batch)", "aux",
                   unmodelled[0][1], None, {**case, "batch_index": unmodelled[0][0]}, exact=True, sig=f"{kind}/chain-draws-not-consumed-as-modelled",
                   theorem=TH["chain"])
+    # ---------------- optimizers WITH STATE (momentum, weight decay, Adam moments, ...): every fit call replayed with torch's OWN optimizer of the same
+    # class and options on a private copy of the parameters the call started with, fed per batch the CD gradient (public positive phase - mean public
+    # effective-energy gradient at the recorded chain ends, at the parameters before the step: the quantity the cd-oracle / cd-fd / model grad points
+    # tie to the property) and the learning rate of the epoch. A zero gradient IS a gradient: weight decay, momentum and moment updates still act.
+    if optim:
+        for r_i, (a0, a1, lr_run, data_run, p_start, p_end) in enumerate(run_bounds):
+            recs = log["batches"][a0:a1]
+            if not recs or any("want_flat" not in rec for rec in recs):
+                ctx.count("stateful optimizer: fit call not replayed (chain unobservable)")
+                continue
+            shapes = [g_.shape for g_ in recs[0]["grads"]]
+            sizes_ = [int(np.prod(shp)) for shp in shapes]
+            vec = np.concatenate([flat(p_, order) for p_ in p_start])
+            offs = np.cumsum([0] + sizes_)
+            bad = None
+            if len(vec) != offs[-1]:
+                bad = {"where": "parameter list of the optimizer", "optimizer_sees": int(offs[-1]), "state_has": len(vec)}
+            else:
+                with torch.enable_grad():
+                    sh = [torch.tensor(vec[offs[i]:offs[i + 1]].reshape(shapes[i]), dtype=torch.double).requires_grad_(True) for i in range(len(shapes))]
+                sh_opt = getattr(torch.optim, optim["name"])(sh, lr=lr_run, **optim["args"])
+                for t, rec in enumerate(recs):
+                    lr_w = expected_lr(lr_run, sched, (rec["epoch"] - start) if rec["epoch"] is not None else 0)
+                    for grp in sh_opt.param_groups:
+                        grp["lr"] = lr_w
+                    for i, p_ in enumerate(sh):
+                        p_.grad = torch.tensor(rec["want_flat"][offs[i]:offs[i + 1]].reshape(shapes[i]), dtype=torch.double)
+                    sh_opt.step()
+                    sh_after = np.concatenate([p_.detach().numpy().ravel() for p_ in sh])
+                    after = np.concatenate([flat(p_, order) for p_ in rec["after"]])
+                    if not np.allclose(after, sh_after, rtol=1e-9, atol=1e-12):
+                        j = int(np.argmax(np.abs(after - sh_after)))
+                        bad = {"batch_of_call": t, "epoch": rec["epoch"], "flat_index": j, "impl_after": float(after[j]), "replayed_after": float(sh_after[j]),
+                               "gradient_component": float(rec["want_flat"][j]), "parameters_with_grad_None": rec.get("grads_missing")}
+                        break
+            ctx.oracle(f"parameters after every step == torch.optim.{optim['name']}({optim['args']}) stepped with the batch's CD gradient on every parameter of "
+                       "both networks (a zero gradient still decays / carries momentum / updates the moments)", bad is None, {**case, "fit_call": r_i},
+                       detail=bad, sig=f"{kind}/stateful-optimizer", theorem=TH["grad"])
+            ctx.count(f"stateful optimizer replays: {optim['name']}")
+            zero_ph = sum(1 for rec in recs if kind != "pos" and not np.any(rec["want_flat"][len(flat(rec["before"][0], order)):]))
+            if zero_ph:
+                ctx.count("stateful optimizer: batches whose phase gradient is exactly zero", zero_ph)
+            if any(not np.any(rec["want_flat"]) for rec in recs):
+                ctx.count("stateful optimizer: batches whose whole gradient is exactly zero")
     # ---------------- model: every fit call recomputed from the parameters it started with (history clause + learning-rate schedule)
-    if ctx.driver is None:
+    if ctx.driver is None or optim:
         return
     for r_i, (a0, a1, lr_run, data_run, p_start, p_end) in enumerate(run_bounds):
         recs = log["batches"][a0:a1]
@@ -755,7 +835,7 @@ def gen_cases(ctx, thorough):
     reps = 40 if thorough else 3
 
     def base_case(kind, sched=None, opt_form="class"):
-        n = rng.choice([2, 3]) if kind != "dm" else 2
+        n = rng.choice([2, 3]) if kind != "dm" else rng.choice([2, 2, 2, 3])
         h = rng.choice([1, 2, 3])
         a = rng.choice([1, 2])
         N = rng.randint(3, 9)
@@ -901,6 +981,57 @@ def gen_cases(ctx, thorough):
             out.append({"kind": kind, "n": n, "h": h, "a": a, "am": am, "ph": ph, "data": data, "bases": bases, "pos_bs": 5, "neg_bs": None,
                         "k": 1, "lr": 1e-3, "epochs": 1, "seed": rng.randrange(1 << 30), "start": 1, "second_lr": None, "second_data": None,
                         "regime": "small-amplitude", "aseed": af.new_seed(rng)})
+    # ---- final pass ---------------------------------------------------------------------------------------------------------------------
+    # (5) the documented defaults of k and lr (k = 1; lr = 1e-3, DensityMatrix.fit: 1 - constants written HERE, not read from the code): calls that
+    #     do not write k, lr or both
+    for i, kind in enumerate(kinds * (3 if thorough else 1)):
+        c = base_case(kind, {"step_size": 1, "gamma": 0.5} if rng.random() < 0.3 else None, rng.choice(["class", "default"]))
+        omit = [["k"], ["lr"], ["k", "lr"]][(i + rng.randrange(3)) % 3] if thorough else rng.choice([["k", "lr"], ["k", "lr"], ["k"], ["lr"]])
+        c.update(omit=omit, regime="documented-defaults", prior=None)
+        if "k" in omit:
+            c["k"] = DOC_DEFAULT_K
+        if "lr" in omit:
+            c["lr"] = DOC_DEFAULT_LR[kind]
+            if c["second_lr"] is not None:
+                c["second_lr"] = DOC_DEFAULT_LR[kind]
+        if c.get("npos"):
+            positional(c, c["npos"])
+            if "k" in omit:
+                c["k"] = DOC_DEFAULT_K
+        out.append(c)
+    # (6) keywords that name no parameter (swallowed by **kwargs); input_bases= handed to a PositiveWaveFunction (documented as ignored)
+    for kind in (kinds if thorough else [rng.choice(kinds), "pos"]):
+        c = base_case(kind)
+        c.update(extra_kw=({"input_bases": True, "foo": 1} if kind == "pos" else {"foo": 1, "bar": None}), regime="extra-keywords", epochs=rng.choice([1, 2]))
+        out.append(c)
+    # (7) optimizers WITH STATE on batches whose gradient is exactly zero: all-Z data (phase gradient of every batch = 0), data whose first rows are
+    #     all Z and later rows rotated (some batches zero, some not), identical rows with k = 0 (amplitude gradient = 0 too)
+    optims = [{"name": "SGD", "args": {"momentum": 0.9, "weight_decay": 0.1}}, {"name": "Adam", "args": {"weight_decay": 0.05}},
+              {"name": "SGD", "args": {"weight_decay": 0.2}}, {"name": "SGD", "args": {"momentum": 0.8, "nesterov": True}},
+              {"name": "Adam", "args": {"betas": [0.8, 0.9]}}, {"name": "RMSprop", "args": {"momentum": 0.5}}, {"name": "Adagrad", "args": {"weight_decay": 0.1}},
+              {"name": "AdamW", "args": {}}]
+    shapes_ = ["all-Z", "Z-then-rotated", "identical-rows-k0"]
+    for i in range(18 if thorough else 5):
+        kind = ["cplx", "dm", "cplx", "dm", "pos"][i % 5]
+        shape_ = "identical-rows-k0" if kind == "pos" else shapes_[i % 2] if i % 5 < 4 else shapes_[2]
+        c = base_case(kind, {"step_size": 1, "gamma": 0.5} if rng.random() < 0.3 else None, "class")
+        N, n_ = len(c["data"]), c["n"]
+        c.update(optim=(optims[i % 3] if not thorough else optims[i % len(optims)]), regime="stateful-optimizer/" + shape_, epochs=rng.choice([2, 3]), prior=None,
+                 letters=None, lr=rng.choice([0.5, 0.05]))
+        if shape_ == "all-Z":
+            c["bases"] = ["Z" * n_] * N
+        elif shape_ == "Z-then-rotated":
+            N = 8
+            c["data"] = [[rng.randint(0, 1) for _ in range(n_)] for _ in range(N)]
+            c["bases"] = ["Z" * n_] * 6 + ["".join(rng.choice("XY") for _ in range(n_)) for _ in range(2)]
+            c.update(pos_bs=2, neg_bs=rng.choice([None, 3]))
+        else:
+            c["data"] = [list(c["data"][0])] * N
+            c["bases"] = ["Z" * n_] * N
+            c.update(k=0, neg_bs=None, pos_bs=rng.choice([2, N]))
+        if c.get("second_lr") is not None:  # the later call: same shape of data (identical rows again / fresh outcomes in the same bases)
+            c["second_data"] = [list(r) for r in c["data"]] if shape_ == "identical-rows-k0" else new_rows(n_, N, c["data"])
+        out.append(c)
     # one positive batch with more than 256 distinct bases
     import itertools
     n = 6
